@@ -173,6 +173,14 @@ def check_ffbuffer(width, inv, pdir, bdir, i_domain, o_domain, rng, out, nevents
                     n_o_ff, n_oe_ff = o, oe
                 i_ff, o_ff, oe_ff = n_i_ff, n_o_ff, n_oe_ff
                 ctx.set(clkcat, mask)
+                # right after the rising edges the registers already hold their new values
+                if bdir in ("o", "io") and (ctx.get(port.o) != o_ff ^ M or ctx.get(port.oe) != (full if oe_ff else 0)):
+                    bad.append(("ffbuffer-output-stage", dict(when="right after the rising edge", port_o=ctx.get(port.o), port_oe=ctx.get(port.oe),
+                                                              expected_o=o_ff ^ M, expected_oe=full if oe_ff else 0)))
+                    return
+                if bdir in ("i", "io") and ctx.get(buf.i) != i_ff:
+                    bad.append(("ffbuffer-input-stage", dict(when="right after the rising edge", i=ctx.get(buf.i), expected=i_ff)))
+                    return
                 ctx.set(clkcat, 0)
                 trace.append(["edge", sorted(doms)])
             out["evaluations"] += 1
